@@ -43,9 +43,10 @@ type (
 		T TypeExpr
 	}
 	EQuant struct {
-		Forall bool
-		Vars   []QVar
-		Body   Expr
+		Forall   bool
+		Vars     []QVar
+		Body     Expr
+		Triggers [][]Expr // explicit {t1, t2} groups
 	}
 	EOld struct{ X Expr }
 )
@@ -224,7 +225,7 @@ func lex(src string) ([]tok, error) {
 				}
 			}
 			if !matched {
-				if strings.ContainsRune("+-*/%&|^!<>()[].,:?", rune(c)) {
+				if strings.ContainsRune("+-*/%&|^!<>()[].,:?{}", rune(c)) {
 					toks = append(toks, tok{kind: "op", text: string(c)})
 					i++
 				} else {
@@ -321,9 +322,21 @@ func (ps *parser) quant() Expr {
 		}
 		break
 	}
+	var trigs [][]Expr
+	for ps.accept("{") {
+		var grp []Expr
+		for {
+			grp = append(grp, ps.expr())
+			if !ps.accept(",") {
+				break
+			}
+		}
+		ps.expect("}")
+		trigs = append(trigs, grp)
+	}
 	ps.expect("::")
 	body := ps.expr()
-	return EQuant{Forall: q == "forall", Vars: vars, Body: body}
+	return EQuant{Forall: q == "forall", Vars: vars, Body: body, Triggers: trigs}
 }
 
 func (ps *parser) typeExpr() TypeExpr {
